@@ -150,6 +150,12 @@ func ruleFreshSegmentList(c *eng.Ctx) {
 				}
 			case *ssa.Parameter:
 				// handed in by the caller: checked at the call sites below
+			case *ssa.Const:
+				// the zero value an (inlined) helper answers next to its error: never a stale list
+				if !x.IsNil() {
+					ok = false
+				}
+				n--
 			default:
 				ok = false
 			}
